@@ -248,7 +248,7 @@ pub struct AnyCase {
     pub c: String,
 }
 
-fn any_strategy(_t: Tier) -> BoxedStrategy<AnyCase> {
+pub fn any_strategy(_t: Tier) -> BoxedStrategy<AnyCase> {
     let pat = prop_oneof![
         3 => (0usize..PATTERNS.len()).prop_map(|i| PATTERNS[i].to_string()),
         2 => crate::props::c04::pattern_strategy(2),
@@ -346,11 +346,10 @@ pub fn property() -> Property {
         streams: vec![
             random_stream("lists", "candidate lists, model winner, permutations and association trees", list_strategy, |t| t.pick(40_000, 3_000_000), check),
             random_stream("lists-generated", "candidate lists whose versions come from the C01 token generator (KF-1 region tolerated and counted)", generated_list_strategy, |t| t.pick(30_000, 3_000_000), check),
-            random_stream("arbitrary", "arbitrary patterns and names, self-consistency laws", any_strategy, |t| t.pick(60_000, 4_000_000), check_any),
-        ],
+            random_stream("arbitrary", "arbitrary patterns and names, self-consistency laws", any_strategy, |t| t.pick(60_000, 4_000_000), check_any), crate::fuzz::replay_stream()],
         selfcheck: dewey::selfcheck,
         hang_is_violation: false,
         min_nontrivial_share: 0.05,
-        extra: None,
+        extra: Some(crate::fuzz::extra),
     }
 }
